@@ -39,6 +39,7 @@ DEFAULT_CONFIG = {
     "clock": {"kind": "steady", "start": 1.7e9, "salt": 1},
     "stdout": {"kind": "memory"},
     "logger": {"kind": "default"},
+    "warnings": {"kind": "always"},
 }
 
 LATENCY = {"disk": 2e-5, "solver": 1e-3, "stdout": 1e-5}
@@ -634,6 +635,11 @@ class World:
             warnings.filterwarnings("ignore", category=SparseEfficiencyWarning)
         except Exception:  # pragma: no cover
             pass
+        if self.config.get("warnings", {}).get("kind") == "error":
+            # the process runs with -W error::MatrixRankWarning: a singular factor raises instead of NaN-filling
+            from scipy.sparse.linalg import MatrixRankWarning
+
+            warnings.filterwarnings("error", category=MatrixRankWarning)
         self._installed = True
         return self
 
